@@ -170,6 +170,25 @@ func specParsed(p *FrameParser) bool {
 //@ ensures[C02.icmpinfo.plain6] p.Layers[1] == layers.LayerTypeICMPv6 && SpecQ6ok(p.ICMP6.Payload) && SpecQ6Next(p.ICMP6.Payload) != 0 && SpecQ6Len(p.ICMP6.Payload) != 0 ==> ret1 == nil && len(ret0.Payload) == ite(SpecQ6Len(p.ICMP6.Payload) < len(p.ICMP6.Payload)-44, SpecQ6Len(p.ICMP6.Payload), len(p.ICMP6.Payload)-44)
 //@ modifies nothing
 
+// ---- C09 at the capture boundary (linux): what the AF_PACKET socket delivers is arbitrary bytes. A frame that cannot
+// even carry an ethernet header is skipped like a non-IP frame; the only errors Read reports are the socket's own.
+//@ func stripEthernetHeader
+//@ safety C09
+//@ ensures[C09.strip.err]    (ret1 != nil) == (len(buf) < 14)
+//@ ensures[C09.strip.class]  ret1 != nil ==> noRepoErr(ret1)
+//@ ensures[C09.strip.within] ret1 == nil && ret0 != nil ==> len(ret0) <= len(buf) - 14
+//@ modifies nothing
+
+//@ func (*afPacketSource).Read
+//@ safety C09
+//@ requires[pre.nonnil]      a != nil && a.sock != nil
+//@ ensures[C09.afp.io]       ret1 != nil ==> ncalls("(*File).Read") > old(ncalls("(*File).Read")) && ret1 == lastres("(*File).Read", 1)
+//@ ensures[C09.afp.len]      0 <= ret0 && ret0 <= len(buf)
+//@ ensures[C09.afp.exterr]   ret1 != nil ==> noRepoErr(ret1)
+//@ loop 1 invariant[calls]   ncalls("(*File).Read") >= old(ncalls("(*File).Read"))
+//@ loop 1 invariant[within]  payload != nil ==> len(payload) <= len(buf)
+//@ modifies elems(buf), ghost clock
+
 //@ func ReadAndParse
 //@ safety C09 C08
 //@ requires[pre.nonnil]      parser != nil && source != nil
